@@ -80,6 +80,22 @@ func handSpecs() []*Spec {
 			Types: withBuiltins(
 				TypeSpec{Kind: "enum", Name: "Mode", Req: []string{"a"}, Values: []string{"X", "Y"}},
 				TypeSpec{Kind: "object", Name: "Query", Fields: []FieldSpec{{Name: "ok", Type: "Boolean"}}})},
+		// gated / deprecated EDGE FIELDS on ungated connections (Connection and TimeBasedConnection)
+		{Query: "Query", Types: append(withBuiltins(
+			TypeSpec{Kind: "object", Name: "Item", Fields: []FieldSpec{{Name: "n", Type: "Int"}}},
+			TypeSpec{Kind: "object", Name: "Extra", Req: []string{"a"}, Fields: []FieldSpec{{Name: "x", Type: "Int"}}},
+			TypeSpec{Kind: "object", Name: "Query", Fields: []FieldSpec{
+				{Name: "ok", Type: "Boolean"},
+				{Name: "items", Conn: &ConnSpec{Prefix: "Item", Node: "Item", EdgeFields: []FieldSpec{
+					{Name: "score", Type: "Int", Req: []string{"a"}},
+					{Name: "extra", Type: "Extra", Req: []string{"a"}, Deprecated: true},
+					{Name: "legacy", Type: "String", Deprecated: true},
+					{Name: "both", Type: "Int!", Req: []string{"a", "b"}, Args: []ArgSpec{{"x", "Int"}}},
+				}}},
+				{Name: "events", Conn: &ConnSpec{Prefix: "Event", Node: "Item", NodeReq: []string{"b"}, TimeBased: true, Args: []ArgSpec{{"kind", "String"}},
+					EdgeFields: []FieldSpec{{Name: "weight", Type: "Float", Req: []string{"a"}, Deprecated: true}}}},
+			}},
+		), pageInfoSpec(), dateTimeSpec())},
 		// connections with features
 		{Query: "Query", Types: append(withBuiltins(
 			TypeSpec{Kind: "object", Name: "Item", Fields: []FieldSpec{{Name: "n", Type: "Int"}}},
